@@ -230,9 +230,10 @@ func (m *Machine) split(s, sep *Term) Value {
 		}
 	}
 	maxSep := m.eng.cfg.SliceBound
-	if maxSep < 2 && sep.IsConst() && (sep.sv == ":" || sep.sv == ".") {
+	if maxSep < 2 && sep.IsConst() && (sep.sv == ":" || sep.sv == "." || sep.sv == "|") {
 		maxSep = 2 // CAIP-10 account ids and "type.pubkey.signature" proofs have two separators
 	}
+
 	var parts []*Term
 	rest := s
 	sl := m.in.StrLen(sep)
@@ -297,6 +298,21 @@ func init() {
 		s, sep := a[0].(*Term), a[1].(*Term)
 		if s.IsConst() && sep.IsConst() {
 			return m.in.I64(int64(strings.Count(s.sv, sep.sv)))
+		}
+		// a concatenation is counted piecewise: constants exactly, bech32 addresses contain no punctuation
+		if sep.IsConst() && len(sep.sv) == 1 && !strings.ContainsAny(sep.sv, "qpzry9x8gf2tvdw0s3jn54khce6mua7l1") {
+			total := m.in.I64(0)
+			for _, p := range m.in.concatParts(s) {
+				switch {
+				case p.IsConst():
+					total = m.in.Add(total, m.in.I64(int64(strings.Count(p.sv, sep.sv))))
+				case m.pcHolds(m.in.UF("validbech32_acc", SBool, p)) || m.pcHolds(m.in.UF("validbech32_val", SBool, p)):
+				default:
+					sl := m.sliceOf(m.split(p, sep))
+					total = m.in.Add(total, m.in.I64(int64(sl.len-1)))
+				}
+			}
+			return total
 		}
 		sl := m.sliceOf(m.split(s, sep))
 		return m.in.I64(int64(sl.len - 1))
